@@ -6,6 +6,7 @@ import GrinVerif.Model.PowSelect
 import GrinVerif.Model.PowCtx
 import GrinVerif.Model.PowDiff
 import GrinVerif.Model.PowSize
+import GrinVerif.Model.PowEntry
 /-! Driver glue for the `pow` domain (line protocol handler), property C05.
 
 ops (see harness/src/bin/pow.rs):
@@ -13,7 +14,9 @@ ops (see harness/src/bin/pow.rs):
 * `keys <hdrhex> <nonce|none> => k0 k1 k2 k3` (blake2b of the header, 4 LE words)
 * `ep <variant> eb k0 k1 k2 k3 nonce => u v`
 * `verify <variant> eb proofsize ctxps k0 k1 k2 k3 [nonces] => ok|<err>`: FAIL when accept/reject
-  differs from the independent graph oracle, DIFF when only the error kind / transliteration differs
+  differs from the rule as decided by the verifier model (proved ⟺ the declarative rule:
+  `Props.C05Entry.verifyOf_iff`), DIFF when the independent graph oracle disagrees with that decision
+  or only the error kind differs
 * `exh <variant> eb proofsize k0 k1 k2 k3 => <one verdict char per ascending tuple>`
 * `select <chain> height eb [avail] => [accepted]|err` (variant selection of `create_pow_context`)
 * `pack w proofsize [nonces] => hex|panic`, `unpack w proofsize <hex> => [nonces]|err`, `diff scale <packedhex> => n`
@@ -27,6 +30,12 @@ ops (see harness/src/bin/pow.rs):
   (`pow::verify_size` on a header with these fields under that chain type): FAIL when accept/reject
   differs from the rule (a context exists for (chain, height, eb), exactly proofsize nonces,
   ascending, in range, one simple cycle of the pre_pow-seeded graph), DIFF on the error kind
+* the same entry point over the WHOLE `u8` range of `edge_bits` in release arithmetic:
+  `entry <chain> height eb <pre_pow hex> [nonces] => ok|noctx|toobiggraph|<err>|panic` against
+  `verifySizeEntry` (Model/PowEntry.lean): FAIL when accept/reject differs from the model — by
+  `Props.C05Entry.verify_size_accepts_exactly_cycles` the model accepts exactly what the property's
+  rule accepts; DIFF when the independent graph oracle disagrees with that proved decision, or on
+  the error kind
 * difficulty over the full parameter space: `gw <chain> height eb => weight` (`graph_weight`),
   `todiff <chain> height eb secondary_scaling <packedhex> => n` (`ProofOfWork::to_difficulty`),
   `undiff <packedhex> => n` (`to_unscaled_difficulty`)
@@ -64,14 +73,18 @@ def foldTup {σ : Type} (N : Nat) (f : σ → List Nat → σ) : Nat → Nat →
 
 /-- what went wrong first on an `exh` line -/
 structure ExhBad where
-  oracleBad : Option String := none   -- implementation ≠ independent oracle (spec failure)
-  modelBad : Option String := none    -- implementation = oracle but ≠ transliterated model
+  specBad : Option String := none     -- implementation ≠ proved decision of the rule (spec failure)
+  oracleBad : Option String := none   -- independent oracle ≠ proved decision (the oracle / the reading of the spec is off)
+  modelBad : Option String := none    -- accept/reject agree, the error kind does not
 
-/-- Every ascending tuple: FIRST the implementation's accept/reject is compared with the independent
-oracle (`oracleAccept`: count / ascending / range rules + `oracleCycle`) — a difference is a spec
-failure and names the first offending tuple; only when implementation = oracle everywhere is the
-transliterated model compared (accept/reject and error kind) — a difference there is a model
-disagreement. -/
+/-- Every ascending tuple.  The rule of the property (count / ascending / range / one simple cycle)
+is decided by the verifier model: `Props.C05Entry.verifyOf_iff` proves `verifyOf … = ok` ⟺ the
+rule, for the parameters used here (`ctx.proof_size = proofsize`, the real bucket mask).  FIRST the
+implementation's accept/reject is compared with that proved decision — a difference is a spec
+failure and names the first offending tuple.  The independent graph oracle (`oracleAccept`: degree
+counting + connectivity, written without reference to the verifiers) is evaluated on every tuple
+as well: a difference between it and the proved decision is reported as a disagreement (the
+oracle's reading of "one simple cycle" would differ from `IsProofCycle*`).  Last the error kind. -/
 def exhaustive (v : Variant) (eb ps : Nat) (k : Keys) (impl : String) : Verdict :=
   let N := 2^eb
   let tbl := epTable (epOf v k eb) N
@@ -81,13 +94,20 @@ def exhaustive (v : Variant) (eb ps : Nat) (k : Keys) (impl : String) : Verdict 
   let (idx, bad) := foldTup N (fun (acc : Nat × ExhBad) t =>
       let (i, bad) := acc
       let r := verifyOf v P ep t
+      let m := resChar r == 'A'
       let o := oracleAccept v ps (2^eb - 1) ep t
       let ic := implChars.getD i '?'
       let bad :=
-        if bad.oracleBad.isNone && (ic == 'A') != o then
+        if bad.specBad.isNone && (ic == 'A') != m then
           let what := if ic == 'A' then "ACCEPTS a non-cycle" else s!"REJECTS ({ic}) a cycle"
           let oa := if o then "accept" else "reject"
-          let msg := s!"tuple #{i} nonces={showNatList t}: implementation {what}; oracle={oa} model={resName r} impl={ic}"
+          let msg := s!"tuple #{i} nonces={showNatList t}: implementation {what}; rule (proved decision)={resName r} independent oracle={oa} impl={ic}"
+          { bad with specBad := some msg }
+        else bad
+      let bad :=
+        if bad.oracleBad.isNone && o != m then
+          let oa := if o then "accept" else "reject"
+          let msg := s!"tuple #{i} nonces={showNatList t}: independent oracle={oa} but the proved decision of the rule={resName r} (impl={ic})"
           { bad with oracleBad := some msg }
         else bad
       let bad :=
@@ -97,28 +117,34 @@ def exhaustive (v : Variant) (eb ps : Nat) (k : Keys) (impl : String) : Verdict 
           { bad with modelBad := some msg }
         else bad
       (i+1, bad)) ps 0 [] (0, {})
-  match bad.oracleBad with
+  match bad.specBad with
   | some b => .fail b
   | none =>
     if idx != implChars.size then .diff s!"tuples={idx} but {implChars.size} verdict characters"
-    else match bad.modelBad with
+    else match bad.oracleBad with
       | some b => .diff b
-      | none => .ok
+      | none => match bad.modelBad with
+        | some b => .diff b
+        | none => .ok
 
 def keysStr (k : Keys) : String := s!"{k.k0.toNat} {k.k1.toNat} {k.k2.toNat} {k.k3.toNat}"
 
-/-- one `verify` observation on context `c`: FIRST implementation vs independent oracle on the
-graph of the context's current keys (production configuration ctx.proof_size = proofsize): a
-difference is a concrete failing input; then the transliterated model (accept/reject and error
-kind) -/
+/-- one `verify` observation on context `c`.  In the production configuration (`ctx.proof_size =
+proofsize`) the model's accept/reject IS the property's rule (`Props.C05Entry.verifyOf_iff`):
+FIRST implementation vs that proved decision — a difference is a concrete failing input; then the
+independent graph oracle vs the proved decision (a difference there means the oracle's reading of
+"one simple cycle" is not `IsProofCycle*`); then the error kind. -/
 def verifyVerdict (c : Ctx) (ns : List Nat) (impl : String) (note : String) : Verdict :=
   let ep := epOf c.variant c.keys c.edgeBits
   let r := c.verify ns
+  let m := resName r == "ok"
   let o := oracleAccept c.variant c.proofsize (2^c.edgeBits - 1) ep ns
-  if c.ctxProofSize == c.proofsize && (impl == "ok") != o then
+  let oa := if o then "accept" else "reject"
+  if c.ctxProofSize == c.proofsize && (impl == "ok") != m then
     let what := if impl == "ok" then "ACCEPTS a non-cycle" else s!"REJECTS ({impl}) a cycle"
-    let oa := if o then "accept" else "reject"
-    .fail s!"nonces={showNatList ns}: implementation {what}; oracle={oa} model={resName r}{note}"
+    .fail s!"nonces={showNatList ns}: implementation {what}; rule (proved decision)={resName r} independent oracle={oa}{note}"
+  else if c.ctxProofSize == c.proofsize && o != m then
+    .diff s!"{resName r} (the independent graph oracle says {oa} for nonces={showNatList ns}: it disagrees with the proved decision){note}"
   else cmpModel (resName r) impl
 
 def handle (st : St) (args : List String) (impl : String) : St × Verdict :=
@@ -253,10 +279,33 @@ def handle (st : St) (args : List String) (impl : String) : St × Verdict :=
           -- the count first: the keys / endpoints are only needed for a full-length proof
           ns.length == proofsizeOf c &&
             oracleAccept v (proofsizeOf c) (2^eb - 1) (epOf v (keysOfHeader pre none) eb) ns
-      if (impl == "ok") != o then
+      -- `name == "ok"` is the rule itself (Props.C05Entry.verify_size_accepts_exactly_cycles with
+      -- entry_eq_verifySize for the sizes this run uses); the oracle is cross-checked against it
+      let oa := if o then "accept" else "refuse"
+      if (impl == "ok") != (name == "ok") then
         let what := if impl == "ok" then "ACCEPTS" else s!"REFUSES ({impl})"
-        let oa := if o then "accept" else "refuse"
-        (st, .fail s!"verify_size {what} a header with {ns.length} nonces (proofsize {proofsizeOf c}); rule={oa} model={name}")
+        (st, .fail s!"verify_size {what} a header with {ns.length} nonces (proofsize {proofsizeOf c}); rule (proved decision)={name} independent oracle={oa}")
+      else if o != (name == "ok") then
+        (st, .diff s!"{name} (the independent graph oracle says {oa}: it disagrees with the proved decision)")
+      else (st, cmpModel name impl)
+    | _, _, _, _, _ => (st, .unknown)
+  | ["entry", chain, h, eb, pre, ns] =>
+    match ChainType.ofString? chain, nat? h, nat? eb, parseHex pre, parseNatList ns with
+    | some c, some h, some eb, some pre, some ns =>
+      let name := match verifySizeEntry c h eb pre ns with
+        | .ok _ => "ok"
+        | .error e => e.name
+      let o := match selectVariant c h eb with
+        | none => false
+        | some v =>
+          !(v == Variant.cuckatoo && graphTooBig eb) && ns.length == proofsizeOf c &&
+            oracleAccept v (proofsizeOf c) (edgeMaskRel eb)
+              (epNode v (keysOfHeader pre none) (nodeBitsOf v eb)) ns
+      if (impl == "ok") != (name == "ok") then
+        let what := if impl == "ok" then "ACCEPTS" else s!"REFUSES ({impl})"
+        (st, .fail s!"verify_size {what} a header with edge_bits {eb} and {ns.length} nonces (proofsize {proofsizeOf c}); rule (proved decision)={name} independent oracle={o}")
+      else if o != (name == "ok") then
+        (st, .diff s!"{name} (the independent graph oracle says accept={o}: it disagrees with the proved decision)")
       else (st, cmpModel name impl)
     | _, _, _, _, _ => (st, .unknown)
   | ["gw", chain, h, eb] =>
